@@ -430,7 +430,7 @@ class RePattern(N.NativeObj):
             return True if r else None
         if isinstance(pat, str) and isinstance(s, str):
             r = getattr(re.compile(pat), name)(s)
-            return True if r else None
+            return ReMatch(r) if r else None
         h = ex.hooks.get('regex')
         if h:
             return h(ex, self, s)
@@ -466,7 +466,7 @@ def _nd_bytes(ex, a, k, mutable=False):
         ex.assume(mk_bool(N.zlen(v) >= zint(lo)))
         if hi is not None:
             ex.assume(mk_bool(N.zlen(v) <= zint(hi)))
-    ex.nondet.append(('bytes', v))
+    ex.nondet.append(('bytes', N.snapshot(v)))
     return v
 
 
@@ -485,6 +485,18 @@ def _ghost(ex, a, k):
     if h:
         return h(ex, a)
     return None
+
+
+class ReMatch(N.NativeObj):
+    def __init__(self, m):
+        self.m = m
+
+    def getattr(self, ex, name):
+        if name == 'groups':
+            return NativeFunc('groups', lambda ex, a, k: STuple(self.m.groups()))
+        if name == 'group':
+            return NativeFunc('group', lambda ex, a, k: self.m.group(*a))
+        return Missing('re match.' + name)
 
 
 def _urandom(ex, a, k):
